@@ -241,6 +241,9 @@ def monitorLease (sc : LScn) (entries : List String) : List (String × String) :
                     else if slowRet then "counted-outside-lease:latency-after-grant"
                     else "counted-outside-lease"
                   m := m.add "C04" rule
+                  -- C09: a slow lease call is a fault; it must not leave a partition in the capacity figure that no lease backs
+                  if slowRet && s.shutdownAt.isNone && !(s.stopAsked && sc.gen == 2) then
+                    m := m.add "C09" "capacity-figure-corrupted-by-slow-lease-call"
           else pure ()
         | _ => pure ()
       -- C04: the instances together never count more than partitions × factor
